@@ -304,8 +304,7 @@ def real_run(job):
 
 def trace_cfg(mind, maxd, tol):
     return ("SPECIFICATION TSpec\nCONSTANTS\n  MinD = %d\n  MaxD = %d\n  Tol = %d\n"
-            "INVARIANT Accept\nINVARIANT Rooted\nINVARIANT Acyclic\nINVARIANT AcceptedInRange\n"
-            "INVARIANT ChainReachesRoot\n" % (mind, maxd, tol))
+            "INVARIANT Accept\nINVARIANT Rooted\nINVARIANT Acyclic\nINVARIANT AcceptedInRange\n" % (mind, maxd, tol))
 
 
 def report_rejected(ctx, traces, acc, cfg, kind, extra):
